@@ -193,24 +193,23 @@ theorem legacy_resync (cap : Nat) (g : List Byte) (p1 : List Byte) (ps : List (L
 /-- from a freshly initialised legacy receiver every frame is delivered, from the first -/
 theorem legacy_frames_from_init (cap : Nat) (ps : List (List Byte)) (hcap : ∀ p ∈ ps, p.length + 2 ≤ cap) :
     ldelivered (LRecv.init cap) (ps.flatMap encodeLeg) = ps :=
-  lframes_from_ready (LRecv.init cap) (Or.inl rfl) ps hcap
+  lframes_from_ready (LRecv.init cap) (Or.inl (Or.inr rfl)) ps hcap
 
-/-
-  Legacy SOUNDNESS.  Full statement (as for `recv_sound`): a packet is only
-  delivered for raw bytes that follow a start marker.  FALSE for the legacy
-  receiver, which has no hunt state — recorded finding C05-legacy-no-hunt:
--/
-/-- witness: `41 crc AC` with no start marker at all is delivered as the packet [41] -/
+/-- historical witness (defect C05-legacy-no-hunt, repaired by `fix: legacy
+receiver hunts for the start marker`): before the repair `41 crc AC` with no
+start marker at all was delivered as the packet [41]; the repaired receiver
+skips everything in front of the first marker and delivers nothing -/
 theorem legacy_no_hunt_witness :
     sinceLastStart legStart [0x41#8, strmcrc8 0xFF#8 [0x41#8]] = none ∧
-    ldelivered (LRecv.init 16) [0x41#8, strmcrc8 0xFF#8 [0x41#8], legStart] = [[0x41#8]] := by
+    ldelivered (LRecv.init 16) [0x41#8, strmcrc8 0xFF#8 [0x41#8], legStart] = [] := by
   decide +kernel
 
-/-- witness: after a DATA_ERROR (invalid escape) the bytes that follow are accumulated
-without waiting for a start marker: `AC AD 00 41 crc AC` delivers [41] although the
-bytes since the last start marker (`AD 00 41 crc`) do not unescape -/
+/-- historical witness: before the repair the bytes after a DATA_ERROR (invalid
+escape) were accumulated without waiting for a start marker, `AC AD 00 41 crc AC`
+delivered [41] although the bytes since the last start marker (`AD 00 41 crc`)
+do not unescape; the repaired receiver hunts for the next marker and delivers nothing -/
 theorem legacy_no_hunt_after_error_witness :
-    ldelivered (LRecv.init 16) [legStart, legStub, 0x00#8, 0x41#8, strmcrc8 0xFF#8 [0x41#8], legStart] = [[0x41#8]] ∧
+    ldelivered (LRecv.init 16) [legStart, legStub, 0x00#8, 0x41#8, strmcrc8 0xFF#8 [0x41#8], legStart] = [] ∧
     unescape ⟨legStart, legStart, legStub, legStubStart, legStubStart, legStubStub⟩
       [legStub, 0x00#8, 0x41#8, strmcrc8 0xFF#8 [0x41#8]] = none := by
   decide +kernel
